@@ -421,7 +421,7 @@ def check_property(pid, tier_):
     # hand-model correspondence (model driver implemented by the property's own script)
     corr_rep = None
     corr_violations = []
-    if P.get('correspondence') and drv_ok:
+    if P.get('correspondence') and (drv_ok or P.get('corr_independent')):
         outp = os.path.join(WORK, f'corr_{pid}_{os.getpid()}.json')
         cmd = [PY, os.path.join(VERIF, 'harness', P['correspondence']), '--out', outp]
         rc, corr_rep, txt = run_json_tool(cmd, outp, 3000, env)
